@@ -60,6 +60,55 @@ def np_norm(ex, st, node, args, kw):
     st.env['#norm'] = (w, s)
     return w
 
+def np_abs(ex, st, node, args, kw):
+    x = args[0]
+    out = fa('abs'); i = z3.Int('i')
+    st.pc.append(z3.ForAll([i], z3.Implies(rng(i, x.n), out(i) == z3.If(x.a(i) >= 0, x.a(i), -x.a(i)))))
+    return RArr(out, x.n)
+
+def np_max(ex, st, node, args, kw):
+    """np.max of a non-empty real array: an upper bound that is attained"""
+    x = args[0]
+    M = z3.Real(f'max{next(_n)}'); arg = z3.Int(f'argmax{next(_n)}'); i = z3.Int('i')
+    st.pc.append(z3.Implies(x.n > 0, z3.And(rng(arg, x.n), M == x.a(arg), z3.ForAll([i], z3.Implies(rng(i, x.n), x.a(i) <= M)))))
+    return M
+
+def np_frexp(ex, st, node, args, kw):
+    """np.frexp(x) = (mantissa, exponent) with x = mantissa * 2**exponent, 0.5 <= |mantissa| < 1 (x != 0); only the exponent is used"""
+    x = args[0]
+    if not z3.is_expr(x):
+        raise Unsupported('frexp of a non-scalar')
+    return (z3.Real(f'mant{next(_n)}'), z3.Int(f'expo{next(_n)}'))
+
+def np_ldexp(ex, st, node, args, kw):
+    """np.ldexp(s, e) = s * 2**e: multiplication of every entry by one positive constant"""
+    x, e = args
+    if not getattr(x, 'is_rarr', False):
+        raise Unsupported('ldexp of a non-array')
+    c = z3.Real(f'pow2_{next(_n)}'); i = z3.Int('i')
+    out = fa('scaled')
+    st.pc.append(c > 0)
+    st.pc.append(z3.ForAll([i], z3.Implies(rng(i, x.n), out(i) == x.a(i) * c)))
+    return RArr(out, x.n)
+
+def r_neg(ex, st, node, v):
+    if z3.is_expr(v):
+        return -v
+    raise Unsupported('negation (real-array domain)')
+
+def r_len(ex, st, node, args, kw):
+    v = args[0]
+    if getattr(v, 'is_rarr', False):
+        return v.n
+    raise Unsupported('len (real-array domain)')
+
+def r_ifexp(ex, st, e):
+    c = ex.ev(e.test, st)
+    a = ex.ev(e.body, st); b = ex.ev(e.orelse, st)
+    if z3.is_expr(c) and all(z3.is_expr(v) or isinstance(v, (int, float)) for v in (a, b)):
+        return z3.If(c, a, b)
+    raise Unsupported('conditional expression (real-array domain)')
+
 def r_binop(ex, st, node, op, l, r):
     i = z3.Int('i')
     if getattr(l, 'is_rarr', False) and z3.is_expr(r) and isinstance(op, ast.Div):
@@ -138,7 +187,7 @@ def np_array(ex, st, node, args, kw):
     raise Unsupported('np.array literal')
 
 
-LIB_R = {'np.linalg.norm': np_norm, 'binop': r_binop, 'np.argsort': np_argsort, 'getitem': r_getitem, 'np.cumsum': np_cumsum,
+LIB_R = {'np.frexp': np_frexp, 'np.ldexp': np_ldexp, 'neg': r_neg, 'np.abs': np_abs, 'np.max': np_max, 'len': r_len, 'ifexp': r_ifexp, 'np.linalg.norm': np_norm, 'binop': r_binop, 'np.argsort': np_argsort, 'getitem': r_getitem, 'np.cumsum': np_cumsum,
          'setitem': r_setitem, 'compare': r_compare, 'np.where': np_where, 'np.array': np_array}
 
 
@@ -253,6 +302,8 @@ def verify():
     A, B, W = z3.Reals('A B W')
     rsq, dsq = _prove([A >= 0, B >= 0, W > 0], z3.Implies((A / W) * (A / W) >= (B / W) * (B / W), A >= B))
     out.append(Verdict('ordering_singular_values[squares monotone on s>=0]', 'Z', 'discharged' if rsq == 'unsat' else 'undecided', rsq, dsq, fn, 'ensures', 'z3'))
+    rdv, ddv = _prove([W > 0], z3.Implies(A / W >= B / W, A >= B))
+    out.append(Verdict('ordering_singular_values[rescaling by a positive number is monotone]', 'Z', 'discharged' if rdv == 'unsat' else 'undecided', rdv, ddv, fn, 'ensures', 'z3'))
     # (a) discarded weight <= tol: the discarded ranks are 0..t-1 and their cumulative weight is c[t-1]
     T0 = z3.Int('T0')      # threshold rank: first kept rank
     thr = z3.And(rng(T0, n), cc(T0) > tol, z3.Implies(T0 > 0, cc(T0 - 1) <= tol))
